@@ -475,6 +475,7 @@ public:
             }
 
             // Compute Ritz vectors
+            SPECTRA_VERIF_EVENT("LobIter", this, (long long) iter_num, (long long) BlockSize, (long long) gramA.rows(), (long long) m_evectors.rows(), (long long) m_evectors.cols());
             if (iter_num > 0)
             {
                 eVecX = m_evectors.block(0, 0, m_nev, m_nev);
